@@ -300,7 +300,12 @@ fn lloyd_wide_d<F: SS, D: Dst<F>>(p: &Params, dist: D, pw: usize) {
     let span = 2 * b + 1;
     let c0 = if csym == 1 { sym_matrix::<F>("c", k, d, b) } else { Array2::from_shape_fn((k, d), |(c, j)| F::lit((((c as i64 * 2 + 1) * span / (2 * k as i64)) - b + j as i64 + c as i64) as f64 + 0.25 * c as f64)) };
     let xs = sym_matrix::<F>("x", sym, d, b);
-    let x = Array2::from_shape_fn((n, d), |(i, j)| if i < sym { xs[(i, j)] } else { F::lit((((i as i64 * 7 + j as i64 * 13) % span) - b) as f64) });
+    // dup=1: the fixed rows are k distinct points repeated (row i = point i mod k) and the start centroids are these
+    // points: every cluster then consists of copies of its own centroid and the update must return it exactly
+    let dup = p.u("dup", 0) == 1;
+    let point = |c: usize, j: usize| F::lit((1 + 2 * c as i64 + j as i64) as f64);
+    let c0 = if dup { Array2::from_shape_fn((k, d), |(c, j)| point(c, j)) } else { c0 };
+    let x = Array2::from_shape_fn((n, d), |(i, j)| if i < sym { xs[(i, j)] } else if dup { point(i % k, j) } else { F::lit((((i as i64 * 7 + j as i64 * 13) % span) - b) as f64) });
     let mut cur = c0.clone();
     for it in 0..iters {
         let model = fit_pre(&dist, &cur, &x, 1, 1);
@@ -335,6 +340,16 @@ fn lloyd_wide_d<F: SS, D: Dst<F>>(p: &Params, dist: D, pw: usize) {
                     observe(c1[(c, j)]);
                 }
             }
+        }
+        // initialised from the data: every centroid stays inside the bounding box of the training data -- exactly
+        if dup && sym == 0 {
+            let inside = (0..k).all(|c| (0..d).all(|j| {
+                let col: Vec<f64> = x.column(j).iter().map(|v| v.shadow()).collect();
+                let (lo, hi) = (col.iter().cloned().fold(f64::INFINITY, f64::min), col.iter().cloned().fold(f64::NEG_INFINITY, f64::max));
+                let v = c1[(c, j)].shadow();
+                lo <= v && v <= hi
+            }));
+            check_bool("lloyd_wide.centroids initialised from the data stay inside its bounding box", inside);
         }
         check_bool("lloyd_wide.counts sum to n", model.cluster_count().iter().map(|v| v.shadow() as usize).sum::<usize>() == n);
         if it + 1 == iters {
